@@ -203,12 +203,12 @@ theorem tokBlank_ok (line : Str) (p : Nat) (hp : p ≤ line.length) :
       · omega
       · exact absurd (by simp [he]) hne
 
-theorem tokChar_ok (c : Char) (line : Str) (p : Nat) (hp : p ≤ line.length) :
-    TokOK line.length p (tokChar c line p) := by
+theorem tokCharP_ok (q : Char → Bool) (line : Str) (p : Nat) (hp : p ≤ line.length) :
+    TokOK line.length p (tokCharP q line p) := by
   have hs : (line.drop p).length = line.length - p := by simp
-  unfold tokChar
+  unfold tokCharP
   generalize line.drop p = s at hs
-  have h1 := length_takeWhile_le (fun x => x != c) s
+  have h1 := length_takeWhile_le q s
   constructor
   · dsimp only; omega
   · dsimp only; omega
@@ -222,6 +222,12 @@ theorem tokChar_ok (c : Char) (line : Str) (p : Nat) (hp : p ≤ line.length) :
     split at h
     · cases h
     · cases h; omega
+
+theorem tokChar_ok (c : Char) (line : Str) (p : Nat) (hp : p ≤ line.length) :
+    TokOK line.length p (tokChar c line p) := tokCharP_ok _ line p hp
+
+theorem tokCharI_ok (c : Char) (line : Str) (p : Nat) (hp : p ≤ line.length) :
+    TokOK line.length p (tokCharI c line p) := tokCharP_ok _ line p hp
 
 theorem tokEach_ok (line : Str) (p : Nat) (hp : p ≤ line.length) :
     TokOK line.length p (tokEach line p) := by
@@ -254,7 +260,7 @@ theorem tokEach_ok (line : Str) (p : Nat) (hp : p ≤ line.length) :
 def SaneOn (mt : Str → Nat → Option (Nat × Nat)) : Prop :=
   ∀ line start ms ml, mt line start = some (ms, ml) → start ≤ ms ∧ ms + ml ≤ line.length
 
-def Sane (m : Matcher) : Prop := ∀ fs, SaneOn (m fs)
+def Sane (m : Matcher) : Prop := ∀ ic fs, SaneOn (m ic fs)
 
 theorem rexScan_ok (mt : Str → Nat → Option (Nat × Nat)) (hm : SaneOn mt) (strip : Bool)
     (line : Str) (sub cur real : Nat) (h1 : sub ≤ real) (h2 : real ≤ cur) (h3 : cur ≤ line.length) :
@@ -416,11 +422,15 @@ theorem roTok_ok (m : Matcher) (hm : Sane m) (e : Env) (n : Nat) :
   intro line p hl hp
   subst hl
   unfold roTok
-  cases fsMode e.fs with
+  cases fsMode e.fsText with
   | each => exact tokEach_ok line p hp
   | blank => exact tokBlank_ok line p hp
-  | char c => exact tokChar_ok _ line p hp
-  | regex => exact tokRex_ok _ (hm _) _ line p hp
+  | char c =>
+    dsimp only
+    split
+    · exact tokCharI_ok _ line p hp
+    · exact tokChar_ok _ line p hp
+  | regex => exact tokRex_ok _ (hm _ _) _ line p hp
   | quoted a b c d => exact tokBlank_ok line p hp
 
 /-- what the `while (p)` loop of split_record guarantees for every field it creates -/
@@ -467,9 +477,9 @@ theorem splitLoop_guard (step : Step) (n : Nat) (hs : StepOK step n) (buf : Str)
   (hs buf p hb hp).2.2.next_gt p' h
 
 theorem splitRecord_flds_dep (m : Matcher) (e : Env) (r : Rec) :
-    (splitRecord m e r).flds = (splitRecord m { fs := e.fs, strip := e.strip } { line := r.line }).flds := by
-  unfold splitRecord roTok
-  cases fsMode e.fs <;> rfl
+    (splitRecord m e r).flds = (splitRecord m e { line := r.line }).flds := by
+  unfold splitRecord
+  cases fsMode e.fsText <;> rfl
 
 theorem splitLoop_ro_buf (tok : Str → Nat → Tok) (n : Nat) (first : Bool) (buf : Str) (p : Nat) :
     (splitLoop (roStep tok) n first buf p).1 = buf := by
@@ -547,7 +557,7 @@ theorem char_loop_law (c : Char) (n : Nat) (first : Bool) (buf : Str) (p : Nat)
     simp at this
   fun_induction splitLoop (roStep (tokChar c)) n first buf p with
   | case1 first buf p r hempty =>
-    simp only [r, roStep, tokChar, Bool.and_eq_true, beq_iff_eq] at hempty
+    simp only [r, roStep, tokChar, tokCharP, Bool.and_eq_true, beq_iff_eq] at hempty
     obtain ⟨⟨_, h2⟩, h3⟩ := hempty
     have hs : (buf.drop p).length = n - p := by simp [hb]
     have : buf.drop p = [] := by
@@ -560,7 +570,7 @@ theorem char_loop_law (c : Char) (n : Nat) (first : Bool) (buf : Str) (p : Nat)
         · cases h2
     exact ⟨by simp [joinSep, this], fun f hf => by cases hf⟩
   | case2 first buf p r hne f hnone =>
-    simp only [r, roStep, tokChar] at hnone
+    simp only [r, roStep, tokChar, tokCharP] at hnone
     have hge : ((buf.drop p).takeWhile (fun x => x != c)).length ≥ (buf.drop p).length := by
       split at hnone
       · assumption
@@ -568,13 +578,13 @@ theorem char_loop_law (c : Char) (n : Nat) (first : Bool) (buf : Str) (p : Nat)
     have hw : (buf.drop p).takeWhile (fun x => x != c) = buf.drop p := by
       rw [← take_length_takeWhile]; exact List.take_of_length_le hge
     have hft : f.text = buf.drop p := by
-      simp only [f, r, roStep, tokChar]; rw [hslice, hw]
+      simp only [f, r, roStep, tokChar, tokCharP]; rw [hslice, hw]
     refine ⟨by simp [joinSep, hft], fun g hg => ?_⟩
     simp only [List.mem_singleton] at hg
     subst hg
     rw [hft, ← hw]; exact hnotin buf p
   | case3 first buf p r hne f p' hsome hguard rest ih =>
-    simp only [r, roStep, tokChar] at hsome
+    simp only [r, roStep, tokChar, tokCharP] at hsome
     have hlt : ((buf.drop p).takeWhile (fun x => x != c)).length < (buf.drop p).length := by
       split at hsome
       · cases hsome
@@ -586,7 +596,7 @@ theorem char_loop_law (c : Char) (n : Nat) (first : Bool) (buf : Str) (p : Nat)
     obtain ⟨x, hx, e⟩ := takeWhile_split _ _ hlt
     have hxc : x = c := by simpa using hx
     have hft : f.text = (buf.drop p).takeWhile (fun x => x != c) := by
-      simp only [f, r, roStep, tokChar]; rw [hslice]
+      simp only [f, r, roStep, tokChar, tokCharP]; rw [hslice]
     have hr1 : r.1 = buf := rfl
     obtain ⟨ih1, ih2⟩ := ih (by rw [hr1]; exact hb) hguard.2
     have hne' := splitLoop_false_ne_nil (roStep (tokChar c)) n r.1 p'
